@@ -84,8 +84,10 @@ def run(ctx):
     if ctx.replay:
         traces = [("replay", ctx.replay, 0, "")]
     nimpl = 0
+    nevents = 0
     for mode, cat, rc2, err2 in traces:
         events = vf.read_ndjson(cat)
+        nevents += len(events)
         if not any(e["ev"] == "run.end" for e in events):
             ctx.report("the restarted crawler died (%s): %s" % (mode, " ".join((err2 or "").split())[-300:]), replay_src=cat, tag="crash", key="restarted process died")
             continue
@@ -116,8 +118,8 @@ def run(ctx):
     ctx.cov.update({
         "states": r.distinct, "transitions": r.generated, "exhaustive": True,
         "traces_validated_against_impl": len(traces),
-        "evaluations": len(traces), "distinct_nontrivial": len({t[0] for t in traces}),
-        "rule": "one (kill | graceful stop | random-time kill) + restart case per evaluation, two processes each",
+        "evaluations": nevents, "distinct_nontrivial": len({t[0] for t in traces}),
+        "rule": "evaluations = recorded events of both processes judged; distinct_nontrivial = distinct (kill | graceful stop | random-time kill) + restart cases, two processes each",
         "samples": [t[0] for t in traces[:8]],
     })
     ctx.assumptions += [
